@@ -50,6 +50,22 @@ def build_types(w, rng, ntypes, depth):
             u = ["gen", t[1], [g.cls() if rng.random() < 0.5 else a for a in t[2]]]
             if u not in tys:
                 tys.append(u)
+        if t[0] == "gen" and len(t[2]) >= 2 and all(a[0] == "cls" for a in t[2]) and rng.random() < 0.7:
+            # the same origin with an UNRELATED first argument and a related (sub- or superclass) later argument, and
+            # the other way round: argument-wise comparison must not depend on where the unrelated pair sits
+            def related(c):
+                r = [x for x in range(w.n) if x != c and (issubclass(w.classes[x], w.classes[c]) or issubclass(w.classes[c], w.classes[x]))]
+                return rng.choice(r) if r else c
+
+            def unrelated(c):
+                r = [x for x in range(w.n) if not issubclass(w.classes[x], w.classes[c]) and not issubclass(w.classes[c], w.classes[x])]
+                return rng.choice(r) if r else c
+
+            a0, a1 = t[2][0][1], t[2][1][1]
+            for args2 in ([["cls", unrelated(a0)], ["cls", related(a1)]], [["cls", related(a0)], ["cls", unrelated(a1)]]):
+                u = ["gen", t[1], args2 + list(t[2][2:])]
+                if u not in tys:
+                    tys.append(u)
         if t[0] == "fdep" and len(t[2]) >= 2:
             # the same check with the wildcard (Any) in other places: one wildcard against none, crossing wildcards
             a, b2 = (t[2][0] if t[2][0] is not None else 0), (t[2][1] if t[2][1] is not None else 1)
@@ -69,7 +85,7 @@ def build_types(w, rng, ntypes, depth):
     for c in rng.sample(range(w.n), min(3, w.n)):
         if ["cls", c] not in tys:
             tys.append(["cls", c])
-    return tys[:26]
+    return tys[:28]
 
 
 def _first_nondown(t):
